@@ -103,22 +103,30 @@ def events(darsia, rng, shapes, quick, arrangements):
                 out = darsia.Resize(shape=tgt, interpolation="inter_area", **{"resize conservative": cons})(img)
             ev.append({"tid": f"area-up:{s}:{ku}:{int(cons)}", "op": "area", "down": 0, "shape": list(s), "k": ku, "data": ints(a), "conservative": int(cons),
                        "res": ints(out.img, ku[0] * ku[1] if cons else 1), "dims_kept": dims_kept(img, out)})
-    for i in range(10 if quick else 200):
-        s = (rng.randint(2, 9), rng.randint(2, 9))
-        tgt = (rng.randint(1, s[0]), rng.randint(1, s[1]))
-        kind = rng.choice(["scalar", "vector", "series"])
-        shp = s + ({"scalar": (), "vector": (3,), "series": (2,)}[kind])
-        a = rand_arr(rng, shp, rng.choice(dtypes)) + 1
-        img = image(darsia, a, [1.0, 1.0], kind)
+    # generic down-sampling; one Resize object (fixed target shape) serves several inputs of different resolutions, as in
+    # a processing pipeline - every application has to conserve, not only the first
+    i = 0
+    for g in range(5 if quick else 80):
+        tgt = (rng.randint(1, 5), rng.randint(1, 5))
         cons = rng.random() < 0.5
         with warnings.catch_warnings():
             warnings.simplefilter("ignore")
-            out = darsia.Resize(shape=tgt, interpolation="inter_area", **{"resize conservative": cons})(img)
-        if cons:
-            rel = abs(float(out.img.sum()) - float(a.sum())) / float(a.sum())
-        else:
-            rel = abs(integral(out) - integral(img)) / integral(img)
-        ev.append({"tid": f"resize:{i}", "op": "resize_generic", "shape": list(s), "target": list(tgt), "conservative": int(cons), "consexp": exponent(rel), "dims_kept": dims_kept(img, out)})
+            rz = darsia.Resize(shape=tgt, interpolation="inter_area", **{"resize conservative": cons})
+        for _ in range(rng.randint(2, 3)):
+            s = (rng.randint(tgt[0], 9), rng.randint(tgt[1], 9))
+            kind = rng.choice(["scalar", "vector", "series"])
+            shp = s + ({"scalar": (), "vector": (3,), "series": (2,)}[kind])
+            a = rand_arr(rng, shp, rng.choice(dtypes)) + 1
+            img = image(darsia, a, [1.0, 1.0], kind)
+            with warnings.catch_warnings():
+                warnings.simplefilter("ignore")
+                out = rz(img)
+            if cons:
+                rel = abs(float(out.img.sum()) - float(a.sum())) / float(a.sum())
+            else:
+                rel = abs(integral(out) - integral(img)) / integral(img)
+            ev.append({"tid": f"resize:{i}", "op": "resize_generic", "shape": list(s), "target": list(tgt), "conservative": int(cons), "consexp": exponent(rel), "dims_kept": dims_kept(img, out)})
+            i += 1
     # axis reduction by index and by Cartesian name
     for dim, shp in [(2, (2, 3)), (2, (3, 1)), (3, (2, 3, 2)), (3, (1, 2, 3))]:
         a = rand_arr(rng, shp, "float64")
